@@ -169,6 +169,10 @@ func TestC12Exhaustive(t *testing.T) {
 
 func digitsN(t *rapid.T, label string, min, max int) string {
 	n := rapid.IntRange(min, max).Draw(t, label+"n")
+	if max >= 40 && rapid.IntRange(0, 15).Draw(t, label+"long") == 0 {
+		// occasionally much longer than any plausible buffer ("however many digits it has")
+		n = rapid.SampledFrom([]int{63, 64, 65, 127, 128, 129, 255, 256, 257, 400, 1000}).Draw(t, label+"nlong")
+	}
 	var b []byte
 	for i := 0; i < n; i++ {
 		b = append(b, byte('0'+rapid.IntRange(0, 9).Draw(t, label)))
@@ -250,7 +254,7 @@ func genLiteral(t *rapid.T) (lit string, valid bool) {
 
 // TestC12Random: long literals in many arrangements.
 func TestC12Random(t *testing.T) {
-	run := h.Begin("C12", "random", "rapid: integer/fraction/exponent parts of 0-40 digits (leading zeros, exponent values up to 10^6), all four literal forms, valid single separators, and one injected malformation (identifier character after the literal, exponent without digits, misplaced underscore); oracle and non-trivial rule as in the exhaustive part; distinct by literal text")
+	run := h.Begin("C12", "random", "rapid: integer/fraction/exponent parts of 0-40 digits, occasionally 63-1000 digits (leading zeros, exponent values up to 10^6), all four literal forms, valid single separators, and one injected malformation (identifier character after the literal, exponent without digits, misplaced underscore); oracle and non-trivial rule as in the exhaustive part; distinct by literal text")
 	defer run.End(t)
 	h.RapidSetup(h.N(4000, 300000), "c12rand")
 	rapid.Check(t, func(rt *rapid.T) {
